@@ -212,6 +212,7 @@ func runC13(c *Ctx) {
 	runC13Alias(c)
 	runC13Round4(c)
 	runC13TextMarshal(c)
+	runC13Round5(c)
 }
 
 // ---------- R3 validation walk ----------
